@@ -346,6 +346,20 @@ class CallMixin:
     # -------------------------------------------------------------- lambdas
     def call_lambda(self, fn, args, kwargs, n, st, frame) -> AV:
         _, node, def_frame, envref = fn
+        active = self._lambda_active
+        if active.get(id(node), 0) >= 2:
+            # recursive nested function: widen (the approximation of the outer activation covers the effects)
+            self.stats["nested_recursion_widened"] += 1
+            deps = frozenset().union(*[a.deps for a in args]) if args else frozenset()
+            return AV(types=None, deps=deps)
+        active[id(node)] = active.get(id(node), 0) + 1
+        try:
+            return self._call_lambda(fn, args, kwargs, n, st, frame)
+        finally:
+            active[id(node)] -= 1
+
+    def _call_lambda(self, fn, args, kwargs, n, st, frame) -> AV:
+        _, node, def_frame, envref = fn
         sub = State(dict(envref.env), st.facts, st.ctrl, True, st.xctrl)
         a = node.args
         for p, v in zip(a.args, args):
@@ -428,6 +442,10 @@ class CallMixin:
                     one = replace(it, types=frozenset({ty}))
                     fi = self.prog.find_method(ty, "__iter__")
                     if fi is None:
+                        if len(it.types) > 1:
+                            # a may-type that cannot be iterated: that path raises TypeError, it contributes no element
+                            self.ev(frame, st, "attr", node, recv=one, attr="__iter__", note="non-iterable:" + ty)
+                            continue
                         self.unresolved(frame, st, node, "iteration over %s" % ty)
                         outs.append(TOP)
                         continue
@@ -573,6 +591,15 @@ class CallMixin:
                 for v in test.values:
                     self.narrow(v, polarity, st, frame)
             return
+        if isinstance(test, ast.Call) and isinstance(test.func, ast.Attribute) and test.func.attr == "is_deterministic" \
+                and isinstance(test.func.value, ast.Name) and not test.args:
+            # typestate DET: on the true edge of x.is_deterministic() (false edge of `not ...`) x is structurally
+            # deterministic
+            var = test.func.value.id
+            cur = st.env.get(var)
+            if cur is not None and polarity:
+                st.env[var] = cur.with_quals({"DET"})
+            return
         if isinstance(test, ast.Call) and isinstance(test.func, ast.Name) and test.func.id == "isinstance" \
                 and len(test.args) == 2 and isinstance(test.args[0], ast.Name):
             var = test.args[0].id
@@ -611,6 +638,11 @@ class CallMixin:
                                           const=NOCONST if cur.const is None else cur.const)
             return
         if isinstance(test, ast.Name) and polarity:
+            cur0 = st.env.get(test.id)
+            if cur0 is not None:
+                for q in cur0.quals:
+                    if isinstance(q, tuple) and q[0] == "DET_TEST_OF" and q[1] in st.env and st.env[q[1]] is not None:
+                        st.env[q[1]] = st.env[q[1]].with_quals({"DET"})
             cur = st.env.get(test.id)
             if cur is not None and cur.types is not None and "None" in cur.types and len(cur.types) > 1:
                 st.env[test.id] = replace(cur, types=cur.types - {"None"})
@@ -719,7 +751,8 @@ class CallMixin:
             out = join(e, d)
             return replace(out, deps=out.deps | deps, const=NOCONST)
         if name == "copy":
-            return replace(recv, alias=fresh, deps=deps, const=NOCONST)
+            return replace(recv, alias=fresh, deps=deps, const=NOCONST).with_quals(
+                {("SHALLOW_COPY_OF", l) for l in recv.alias})
         if name == "union":
             out_elem = e
             quals = recv.quals
@@ -822,6 +855,8 @@ class CallMixin:
             quals = a0.quals if kind in ("set", "frozenset", "list") else frozenset()
             quals = frozenset(q for q in quals if q != EMPTYQ or True)
             out = AV(types=frozenset({kind}), alias=fresh, elem=_strip(e), deps=deps, quals=quals)
+            if name in ("list", "set", "tuple", "frozenset"):
+                out = out.with_quals({("SHALLOW_COPY_OF", l) for l in a0.alias})
             if name in ("list", "sorted", "tuple", "reversed"):
                 out = out.with_quals({("PERM_OF", l) for l in a0.alias} | {q for q in a0.quals if isinstance(q, tuple) and q[0] == "PERM_OF"})
             if name == "tuple" and a0.items is not None:
@@ -831,11 +866,15 @@ class CallMixin:
             if a0 is None:
                 return AV(types=frozenset({"dict"}), alias=fresh, quals=frozenset({EMPTYQ}))
             if a0.only("dict"):
-                return replace(a0, alias=fresh, const=NOCONST)
+                return replace(a0, alias=fresh, const=NOCONST).with_quals({("SHALLOW_COPY_OF", l) for l in a0.alias})
             e = self.iterate(a0, n, st, frame)
             k = e.items[0] if e.items and len(e.items) == 2 else TOP
             v = e.items[1] if e.items and len(e.items) == 2 else TOP
             return AV(types=frozenset({"dict"}), alias=fresh, key=_strip(k), elem=_strip(v), deps=deps)
+        if name == "dict.fromkeys":
+            e = self.iterate(a0, n, st, frame) if a0 is not None else TOP
+            v = args[1] if len(args) > 1 else t("None", const=None)
+            return AV(types=frozenset({"dict"}), alias=fresh, key=_strip(e), elem=_strip(v), deps=deps)
         if name == "enumerate":
             e = self.iterate(a0, n, st, frame) if a0 is not None else TOP
             pair = AV(types=frozenset({"tuple"}), items=(AV(types=frozenset({"int"})), e))
